@@ -184,6 +184,9 @@ func (d *dialer) dial(redial bool) error {
 	// 3. After timing out from a failed connection attempt.
 
 	if !redial {
+		// A failed synchronous Dial: the caller may correct the problem
+		// and dial again, so this dialer is no longer active.
+		d.active = false
 		return err
 	}
 	switch err {
